@@ -28,7 +28,7 @@ from ..core import Family
 
 ID = "C10"
 READY = True
-LEAN_TARGETS = ["NauyacaVerif.Props.C10", "NauyacaVerif.Props.Translated"]
+LEAN_TARGETS = ["NauyacaVerif.Props.C10", "NauyacaVerif.Props.Tr.Consume"]
 THEOREMS = [f"NauyacaVerif.C10.{t}" for t in (
     "bucket_inv", "obs_is_run", "private_bucket", "window_bound", "window_bound_length", "refuse_only_empty",
     "noninterference", "cleanup_refines", "cleanup_keeps_allowance",
